@@ -142,3 +142,9 @@ add("C14", "exploration", [
      "shards": {"quick": 8, "thorough": 16}, "checks": {"quick": 12, "thorough": 300},
      "timeout": {"quick": 900, "thorough": 3000}},
 ])
+
+add("C04", "exploration", [
+    {"name": "c04-configs", "bin": "c04", "pkg": ZZ + "c04", "run": "^TestVerifC04Configurations$",
+     "shards": {"quick": 12, "thorough": 16}, "checks": {"quick": 6, "thorough": 250},
+     "timeout": {"quick": 900, "thorough": 3300}, "shrinktime": "60s"},
+])
